@@ -74,7 +74,7 @@ type c10Input struct {
 
 var (
 	c10ProjSteps  = []string{"Len", "Check", "Example", "GetAST", "Used", "OpenAPI", "Deref"}
-	c10EnumSteps  = []string{"Len", "Check", "Values", "GetAST"}
+	c10EnumSteps  = []string{"Len", "Check", "Values", "GetAST", "UseInSchema"}
 	c10RegexSteps = []string{"Len", "Check", "Pattern", "GetAST", "Example", "OpenAPI"}
 	c10DocSteps   = []string{"0:Lex3", "1:Lex3", "2:Check", "3:LexAll", "4:Len", "5:LexAll"}
 )
@@ -524,6 +524,17 @@ func (o *c10Obj) runEnum(op, from string) string {
 			o.keep(c10Kept{what: "AST", label: o.in.label, from: from, render: func() string { return c10AST(&n) }, snap: r})
 		}
 		return "AST " + r
+	case "UseInSchema":
+		// the same rule object named by a schema, as a project does: a loader that edits the rule's
+		// memoised values shows in the lists handed out earlier and in the next use
+		s := jschema.New("root", "{\n  \"a\": 1, // {enum: @e}\n  \"b\": 1 // {enum: @e}\n}")
+		if err := s.AddRule("@e", e); err != nil {
+			o.keepErr(from, err)
+			return "addrule " + c10Err(err)
+		}
+		err := s.Check()
+		o.keepErr(from, err)
+		return c10Err(err)
 	}
 	return "?" + op
 }
